@@ -46,9 +46,13 @@ class C03(C01):
           if case["spec"]["entry"][i] and (i + t[2]) % 2 == 0:
             acts.setdefault("%d:ENTRY" % i, []).append(["start_other"])
         case["spec"] = dict(case["spec"], acts=acts)
+      if t[6] and n >= 2 and not t[5]:
+        # different state functions that answer to the same __name__ (closure-built states that
+        # were never renamed): what counts is the function, not what it is called
+        case["spec"] = dict(case["spec"], names=["vs%d" % (i % t[6]) for i in range(n)])
       return case
     return st.tuples(base, hosts, st.integers(0, 50), st.booleans(), st.integers(0, 3).map(lambda x: x == 0),
-                     st.integers(0, 3).map(lambda x: x == 0)).map(finish)
+                     st.integers(0, 3).map(lambda x: x == 0), st.sampled_from([0, 0, 0, 1, 2, 3])).map(finish)
 
   def check(self, case, stats):
     case = dict(case, events=[])
